@@ -112,6 +112,14 @@ def build_harness():
     return rc, out
 
 
+CLI_BIN = os.path.join(BUILD, "goalign")
+
+
+def build_cli():
+    """go build of the goalign command line from /repo's working tree (no build tag)."""
+    return run(["go", "build", "-o", CLI_BIN, "."], cwd=REPO, env=goenv(), timeout=900)
+
+
 def gentables():
     return run([HARNESS_BIN, "gentables", os.path.join(COQ, "Gen")], timeout=300)
 
@@ -281,6 +289,11 @@ def run_harness(sub, seed, n, tier, extra=None, only=None, timeout=3000):
         cmd += extra
     env = dict(os.environ)
     env["VERIF_HARNESS_BIN"] = HARNESS_BIN
+    if sub == "c11":
+        rc0, out0 = build_cli()
+        if rc0 != 0:
+            return rc0, "goalign build failed:\n" + out0, prefix, []
+        env["VERIF_GOALIGN_BIN"] = CLI_BIN
     rc, out = run(cmd, timeout=timeout, env=env)
     shards = sorted([f for f in os.listdir(casedir) if re.match(r"^%s_\d+\.v$" % re.escape(sub.upper()), f)],
                     key=lambda s: int(re.findall(r"_(\d+)\.v$", s)[0]))
